@@ -320,8 +320,6 @@ struct World
          o += TUN_H + chunk;
       }
    }
-   struct Excused {int s, n; std::string why;};
-   std::vector<Excused> excuses;                        // Messages newly covered by a known finding's predicate (drained by the trace writer)
    std::set<std::pair<int,int> > excusedSet;
    std::vector<size_t> packedUpTo;
    std::vector<uint32> firstId;                         // per sender: the id of its first Message
@@ -723,11 +721,6 @@ struct TraceOut
 };
 static mj::Value E(const char * e) {mj::Value v = mj::Value::Obj(); v.set("e", mj::Value::Str(e)); return v;}
 
-static void LogExcuses(World & w, TraceOut * tr)
-{
-   for (size_t i=0; i<w.excuses.size(); i++) if ((tr)&&(tr->f)) { mj::Value e = E("excuse"); e.set("s", mj::Value::Int(w.excuses[i].s)).set("n", mj::Value::Int(w.excuses[i].n)).set("why", mj::Value::Str(w.excuses[i].why)); tr->Ev(e); }
-   w.excuses.clear();
-}
 static void LogDeliveries(World & w, const std::vector<Got> & g, TraceOut * tr, std::vector<int> & lastN)
 {
    if ((tr == NULL)||(tr->f == NULL)) return;
@@ -832,7 +825,6 @@ static void ExploreOne(uint64_t seed, uint32 iter, uint32 iters, uint32 mtuLo, u
             for (int cpy=0; cpy<copies; cpy++) { const size_t pos = pending.size() - muscleMin(pending.size(), (size_t) g.R(4)); pending.insert(pending.begin() + pos, std::make_pair(q, k)); }
          }
       }
-      LogExcuses(w, tr);
       // hand over some of the pending packets (perfect: in order per sender, which `pending` preserves)
       uint32 nd = g.R(3);
       while((nd-- > 0)&&(!pending.empty()))
@@ -856,7 +848,6 @@ static void ExploreOne(uint64_t seed, uint32 iter, uint32 iters, uint32 mtuLo, u
          mj::Value e = E("out"); e.set("s", mj::Value::Int(q)).set("len", mj::Value::Int((int64_t) w.net[q][k - 1].size())).set("mtu", mj::Value::Int(realMtu)); if (tr) tr->Ev(e);
          if ((perfect)||(g.R(8) != 0)) pending.push_back(std::make_pair(q, k));
       }
-      LogExcuses(w, tr);
       while((!pending.empty())&&(w.violations.empty()))
       {
          size_t pi = 0; if ((!perfect)&&(g.R(3) == 0)) pi = g.R((uint32) muscleMin(pending.size(), (size_t) 4));
@@ -969,6 +960,17 @@ static int Directed(const char * out)
       for (size_t k=0; k<w.net[1].size(); k++) (void) w.Deliver(1, (int) k + 1);
       w.Clause2(f);
       Case(fo, dir ? "F32-b" : "F32-a", w, dir ? "mini tunnel, level 6 while the held packet was begun, 0 when it was written" : "mini tunnel, level 0 while the held packet was begun, 6 when it was written", !w.violations.empty());
+   }
+   {
+      World w(true, SL_EXACT, 183, 1, MUSCLE_NO_LIMIT); w.comp = true; std::vector<uint32> f(2, 0);
+      (void) w.Send(1, 3); (void) w.Send(1, 0);
+      (void) w.Out(1, 2, 6);                // 23 bytes held: deflating them does not help, the attempt is made all the same
+      (void) w.Send(1, 0); (void) w.Send(1, 140); (void) w.Send(1, 0);
+      (void) w.Out(1, 0, 6);                // now it helps
+      for (size_t k=0; k<w.net[1].size(); k++) (void) w.Deliver(1, (int) k + 1);
+      w.Clause2(f);
+      if (w.nCompressed == 0) w.D("expected a deflated packet");
+      Case(fo, "F32-c", w, "mini tunnel, level 6 throughout: Messages of 3 and 0 bytes held (deflating does not help), then 0, 140, 0 bytes added (now it does)", !w.violations.empty());
    }
    // message-id wrap-around at 2^32 (tunnel) and packet-id wrap-around at 2^24 (mini tunnel), with compression on (the id shares a word with the level)
    {
